@@ -164,6 +164,10 @@ def tlc_totals():
 def run_pool(cases, deadline_ms=2000, workers=None, race=False):
     """Runs cases (dicts with 'id' and 'k') against the real code. Returns (id -> observation), hooks."""
     binary, hooks = build_harness(race=race)
+    penv = dict(os.environ)
+    if race:
+        # race reports go to <log_path>.<pid>; the conc handler reads its own file back
+        penv["GORACE"] = "log_path=%s halt_on_error=0" % os.path.join(scratch(), "race")
     inp = os.path.join(scratch(), "cases-%d.ndjson" % (time.time_ns()))
     n = 0
     with open(inp, "w") as f:
@@ -174,7 +178,7 @@ def run_pool(cases, deadline_ms=2000, workers=None, race=False):
     outp = inp + ".obs"
     with open(inp) as fi, open(outp, "w") as fo:
         p = subprocess.run([binary, "pool", "-workers", str(workers or NCPU), "-deadline", str(deadline_ms)],
-                           stdin=fi, stdout=fo, stderr=subprocess.PIPE, text=True)
+                           stdin=fi, stdout=fo, stderr=subprocess.PIPE, text=True, env=penv)
     if p.returncode != 0:
         raise Infra("worker pool failed: " + p.stderr[-2000:])
     res = {}
